@@ -70,6 +70,41 @@ theorem inc_smul (n : ℕ) (path dens : ℕ → ℝ) (l : ℕ) (κ : Kind) (s : 
   intro k _
   unfold term; cases κ <;> simp only <;> ring
 
+/-! ### when the early exit does not fire -/
+
+/-- a row that came back with one column at or below 10 was never cut: it is the full sum -/
+theorem tauCut_eq_full_of_le (n nwn : ℕ) (path dens : ℕ → ℝ) (l : ℕ) (hp : ∀ k < n - l, 0 ≤ path k)
+    (hd : ∀ j < n, 0 ≤ dens j) (cs : List (Contrib ℝ)) (hcs : ∀ c ∈ cs, c.Nonneg) (w : ℕ) (hw : w < nwn)
+    (h10 : tauCut n nwn path dens l cs w ≤ 10) (wn : ℕ) :
+    tauCut n nwn path dens l cs wn = tauFull n path dens l cs wn := by
+  rcases (cutoff_from n nwn path dens l hp hd cs hcs (fun _ => 0)).2 with h | h
+  · exact h wn
+  · have := h w hw
+    unfold tauCut at h10
+    linarith
+
+/-- the same, read off the returned transmittance: one column not below `exp(-10)` -/
+theorem tauCut_eq_full_of_trans (n nwn : ℕ) (path dens : ℕ → ℝ) (l : ℕ) (hp : ∀ k < n - l, 0 ≤ path k)
+    (hd : ∀ j < n, 0 ≤ dens j) (cs : List (Contrib ℝ)) (hcs : ∀ c ∈ cs, c.Nonneg) (w : ℕ) (hw : w < nwn)
+    (h10 : trans 10 ≤ trans (tauCut n nwn path dens l cs w)) (wn : ℕ) :
+    tauCut n nwn path dens l cs wn = tauFull n path dens l cs wn := by
+  refine tauCut_eq_full_of_le n nwn path dens l hp hd cs hcs w hw ?_ wn
+  by_contra hc
+  have := trans_lt_of_gt (not_le.1 hc)
+  linarith
+
+/-- the full sum of non-negative contributions is non-negative -/
+theorem tauFull_nonneg' (n : ℕ) (path dens : ℕ → ℝ) (l : ℕ) (hp : ∀ k < n - l, 0 ≤ path k)
+    (hd : ∀ j < n, 0 ≤ dens j) (cs : List (Contrib ℝ)) (hcs : ∀ c ∈ cs, c.Nonneg) (wn : ℕ) :
+    0 ≤ tauFull n path dens l cs wn :=
+  tauFullFrom_ge n path dens l hp hd cs hcs (fun _ => 0) wn
+
+/-- the cut sum never exceeds the full sum -/
+theorem tauCut_le_full (n nwn : ℕ) (path dens : ℕ → ℝ) (l : ℕ) (hp : ∀ k < n - l, 0 ≤ path k)
+    (hd : ∀ j < n, 0 ≤ dens j) (cs : List (Contrib ℝ)) (hcs : ∀ c ∈ cs, c.Nonneg) (wn : ℕ) :
+    tauCut n nwn path dens l cs wn ≤ tauFull n path dens l cs wn :=
+  (cutoff_from n nwn path dens l hp hd cs hcs (fun _ => 0)).1 wn
+
 end Taurex.Transmission
 
 namespace Taurex.Sigma
